@@ -564,6 +564,39 @@ Definition compile_with (ff pf : nat) (c : cfg) (tbl : list wfdata) (prog : loop
 Definition compile : cfg -> list wfdata -> loop -> result out := compile_with fab_fuel prep_fuel.
 
 (* ------------------------------------------------------------------------------------------------------------- *)
+(* TaborProgram.__init__ works IN PLACE: the tree it leaves behind in its argument (whether it returns or raises).
+   The tuple-length checks come before any change; the root is encapsulated; flatten_and_balance runs to its end;
+   prepare raises only at the start of an iteration (or returns), so what it leaves is `rev before ++ after` of the
+   last state it reached; asserts, parsers and sampling do not touch the tree. *)
+Fixpoint prep_last (fuel : nat) (mn mx : Z) (before after : list loop) : list loop :=
+  match fuel with
+  | O => rev before ++ after
+  | S f =>
+      match prep_step mn mx before after with
+      | PNext b a => prep_last f mn mx b a
+      | _ => rev before ++ after
+      end
+  end.
+
+Definition tree_after_with (ff pf : nat) (c : cfg) (prog : loop) : loop :=
+  if negb (c_nchan c =? c_cpp c) then prog
+  else if negb (c_nmark c =? c_cpp c) then prog
+  else
+    let prog1 := if (l_rep prog >? 1) || l_vol prog || (depth prog =? 0)
+                 then Loop 1 plain None [prog] else prog in
+    let advanced := match c_mode c with Some m => m | None => depth prog1 >? 1 end in
+    if negb (c_nchan c =? 2) then prog1
+    else if negb advanced then prog1
+    else if negb (depth prog1 >? 1) then prog1
+    else if negb (l_rep prog1 =? 1) then prog1
+    else match fab ff 2 [] (l_ch prog1) with
+         | Ok ch1 => set_ch prog1 (prep_last pf (c_min c) (c_max c) [] ch1)
+         | Err _ => prog1
+         end.
+
+Definition tree_after : cfg -> loop -> loop := tree_after_with fab_fuel prep_fuel.
+
+(* ------------------------------------------------------------------------------------------------------------- *)
 (* The table player (independent of the compiler): what the instrument does with the uploaded data                 *)
 
 Record streams := { s_a : list Z; s_b : list Z; s_ma : list bool; s_mb : list bool }.
